@@ -943,6 +943,14 @@ func (env *SpecEnv) call(x *SExpr) (*Term, types.Type) {
 					return Ite(Le(a, b), a, b), t
 				}
 				return Ite(Le(a, b), b, a), t
+			case "emod":
+				a, at := env.tr(args[0])
+				b, _ := env.tr(args[1])
+				return EMod(a, b), at
+			case "ediv":
+				a, at := env.tr(args[0])
+				b, _ := env.tr(args[1])
+				return EDiv(a, b), at
 			case "strcontains":
 				a, _ := env.tr(args[0])
 				b, _ := env.tr(args[1])
